@@ -13,7 +13,7 @@ Theorem pipeline_legal : forall (A : Type) (e : edit_ast) (s l : part A),
   nonempty e = true -> legal e = true ->
   (e' <- edit_parse (render e) ;; actor_code_edit e' s l) = actor_code_edit (denote e) s l.
 Proof.
-  intros A e s l Hn Hl. assert (H := parse_grammar e Hn). rewrite Hl in H.
+  intros A e s l Hn Hl. assert (H := parse_grammar e). rewrite Hn, Hl in H.
   apply forget_some in H. rewrite H. reflexivity.
 Qed.
 
@@ -32,8 +32,8 @@ Proof.
 Qed.
 
 (* family level (F7 repaired): a list of any length is parsed per the documented grammar edit(def, imp(..), trt(..)) *)
-Theorem family_parse_full : forall e : fam_ast, nonempty_fam e = true ->
-  forget (edit_parse_family (render_fam e)) = if legal_fam e then Some (denote_fam e) else None.
+Theorem family_parse_full : forall e : fam_ast,
+  forget (edit_parse_family (render_fam e)) = if nonempty_fam e && legal_fam e then Some (denote_fam e) else None.
 Proof. exact parse_family_grammar. Qed.
 
 (* former witness of the family-edit-multi finding, now accepted with its declarative meaning *)
@@ -54,13 +54,13 @@ Theorem family_edit_any_length : forall l : list sitem, ne l = true -> forallb n
   edit_parse_family (render_fam (FList l)) = Ok (denote_fam (FList l)).
 Proof.
   intros l H1 H2 H3. apply forget_some.
-  assert (K := parse_family_grammar (FList l)). simpl in K. rewrite H1, H2 in K. specialize (K eq_refl).
-  rewrite H3 in K. exact K.
+  assert (K := parse_family_grammar (FList l)). simpl nonempty_fam in K. simpl legal_fam in K.
+  rewrite H1, H2, H3 in K. exact K.
 Qed.
 
 (* family members (F7 repaired): a member's edit(..) is parsed with the actor grammar *)
-Theorem member_parse_grammar : forall e : edit_ast, nonempty e = true ->
-  forget (edit_parse_member (render e)) = if legal e then Some (denote e) else None.
+Theorem member_parse_grammar : forall e : edit_ast,
+  forget (edit_parse_member (render e)) = if nonempty e && legal e then Some (denote e) else None.
 Proof. exact parse_grammar. Qed.
 
 (* a bare member `edit` means edit(script, live); `edit(file)` additionally writes everything and removes the macro *)
@@ -92,4 +92,19 @@ Qed.
 Example grammar_example :
   let e := EList [EPart (PSol true (Some [SSect SDef; SFileS [SImp None]])); EFile [PSol false (Some [SSect (SImp (Some [NName "a"; NName "b"]))])]] in
   nonempty e = true /\ legal e = true /\ edit_parse (render e) = Ok (denote e).
+Proof. repeat split. Qed.
+
+(* the forms that used to be accepted silently (C19 / F10 territory) are rejected now; hypotheses of the rule theorems are satisfiable *)
+Example empty_and_nonbare_rejected :
+  is_diag (edit_parse (MList "edit" [])) = true
+  /\ is_diag (edit_parse (MList "edit" [MList "script" []])) = true
+  /\ is_diag (edit_parse (MList "edit" [MList "live" [MList "imp" []]])) = true
+  /\ is_diag (edit_parse (MList "edit" [MList "live" [MList "def" [MPath "x"]]])) = true
+  /\ is_diag (edit_parse (MList "edit" [MList "live" [MNV "def"]])) = true
+  /\ is_diag (edit_parse (MList "edit" [MList "live" [MList "imp" [MList "foo" [MPath "bar"]]]])) = true
+  /\ is_diag (edit_parse (MList "edit" [MList "live" [MList "imp" [MNV "inc"]]])) = true
+  /\ is_diag (edit_parse (MList "edit" [MList "live" [MList "imp" [MList "file" [MList "file" [MPath "a"]]]]])) = true
+  /\ is_diag (edit_parse_family (MList "edit" [MPath "def"; MList "imp" []])) = true
+  /\ edit_parse (MList "edit" [MList "live" [MPath "def"; MList "imp" [MPath "inc"]]])
+     = Ok {| ea_remove := false; ea_script := empty_t; ea_live := ((true, false), (Some [("inc", false)], false), (None, false)) |}.
 Proof. repeat split. Qed.
